@@ -265,3 +265,38 @@ func EntryPointDisagreements(mods map[string]string, o Options, base Result) []s
 	}
 	return out
 }
+
+// CompileTwice parses the set once and compiles the SAME parse trees twice: first with the filter of o,
+// then without any filter.  It returns the result of the second compile (a filtered compile must leave
+// the caller's parse trees as fit for a later compile as it found them).
+func CompileTwice(mods map[string]string, o Options) (res Result) {
+	defer func() {
+		if r := recover(); r != nil {
+			res.Panic = r
+		}
+	}()
+	trees := map[string]*parse.Tree{}
+	for n, text := range mods {
+		t, err := parse.Parse(n+".yang", text, nil)
+		if err != nil {
+			res.Err, res.Stage = err, "parse"
+			return
+		}
+		trees[n] = t
+	}
+	var fc compile.FeaturesChecker
+	if o.Features != nil {
+		fc = compile.FeaturesFromNames(true, o.Features...)
+	}
+	if _, err := compile.CompileParseTrees(nil, trees, fc, false, o.Filter); err != nil {
+		res.Err, res.Stage = err, "first compile"
+		return
+	}
+	ms, err := compile.CompileParseTrees(nil, trees, fc, false, nil)
+	if err != nil {
+		res.Err, res.Stage = err, "second compile"
+		return
+	}
+	res.MS = ms
+	return
+}
